@@ -530,7 +530,17 @@ func reifyMergeValue(
 			return oldValue, nil
 		}
 
-		// old != value -> merge value into old
+		// old != value -> merge value into old. A config that is part of the tree being
+		// read (a field filled by an earlier Unpack of this config) is not written into:
+		// the merge goes into a copy, which the field holds afterwards.
+		if cfgRoot(subOld) == cfgRoot(sub) {
+			cp := cfgSub{subOld}.cpy(subOld.ctx).(cfgSub).c
+			if err := mergeFieldConfig(opts, cp, sub); err != nil {
+				return reflect.Value{}, err
+			}
+			v := reflect.ValueOf(cp).Convert(reflect.PtrTo(baseType))
+			return pointerize(t, baseType, v), nil
+		}
 		return oldValue, mergeFieldConfig(opts, subOld, sub)
 	}
 
